@@ -3,7 +3,8 @@ import PyomaVerif.Model.Poles
 import PyomaVerif.Ops.C02
 import PyomaVerif.Ops.C05
 open Lean PV PV.Codec
-/-! Driver operations for `Model/Poles.lean`: `ssi_poles`, `ssi_fast_lists`, `plscf_all`, `plscf_poles`. -/
+/-! Driver operations for `Model/Poles.lean`: `ssi_poles`, `ssi_fast_lists`, `plscf_all`, `plscf_poles`,
+`ssi_legacy_lists`. -/
 namespace PV.Ops.Poles
 open PV.Ops.C02 (cpxOfJson cpxToJson)
 open PV.Poles PV.Plscf
@@ -73,6 +74,28 @@ def fastListsOp (j : Json) : Except String Json := do
   let (As, Cs) := fastLists Ri Q Obs l ordmax step
   pure (Json.mkObj [("A", listToJson (matToJson ratToJson) As), ("C", listToJson (matToJson ratToJson) Cs)])
 
+/-- `{"op":"ssi_legacy_lists","U":<all columns of U1>,"sq":[sqrt of ALL singular values],
+    "pinv":[one per pass of the loop],"br","ordmax","step"}` → `{"raises": cls}` or the lists `A`, `C` of the
+    legacy `ssi.SSI`.  A recorded `pinv` result without entries travels as `[]`; its shape
+    (`min(ii, len(S1)) × (H.shape[0] − Nch)`, numpy's rule) is restored here. -/
+def legacyListsOp (j : Json) : Except String Json := do
+  let U ← matOfJson (← field j "U")
+  let sq ← listOf ratOfJson (← field j "sq")
+  let Pinv ← listOf matOfJson (← field j "pinv")
+  let br ← natOfJson (← field j "br")
+  let ordmax ← natOfJson (← field j "ordmax")
+  let step ← natOfJson (← field j "step")
+  let l := U.r / (br + 1)
+  let Pi : Nat → Mat Rat := fun k =>
+    let P := Pinv.getD k ⟨0, 0, fun _ _ => 0⟩
+    if P.r = 0 ∨ P.c = 0 then ⟨min (k * step) sq.length, U.r - l, fun _ _ => 0⟩ else P
+  match legacySSI Pi U sq br ordmax step with
+  | .error e => pure (Json.mkObj [("raises", Json.str e)])
+  | .ok (As, Cs) =>
+    pure (Json.mkObj [("A", listToJson (matToJson ratToJson) As), ("C", listToJson (matToJson ratToJson) Cs),
+      ("shapesA", listToJson (fun (m : Mat Rat) => Json.arr #[Json.num m.r, Json.num m.c]) As),
+      ("shapesC", listToJson (fun (m : Mat Rat) => Json.arr #[Json.num m.r, Json.num m.c]) Cs)])
+
 def coefsToJson (c : Coefs Rat) : Json :=
   Json.arr ((List.range c.len).map fun k => matToJson ratToJson ⟨c.r, c.c, c.blk k⟩).toArray
 
@@ -119,6 +142,6 @@ def plscfPolesOp (j : Json) : Except String Json := do
 
 def ops : List (String × (Json → Except String Json)) :=
   [("ssi_poles", ssiPolesOp), ("ssi_fast_lists", fastListsOp), ("plscf_all", plscfAllOp),
-   ("plscf_poles", plscfPolesOp)]
+   ("plscf_poles", plscfPolesOp), ("ssi_legacy_lists", legacyListsOp)]
 
 end PV.Ops.Poles
